@@ -20,6 +20,9 @@ def run(run, tier, seed):
     run.add_design(d)
     replay_entries(run, tier, seed)
     replay_ref(run, tier, seed)
+    if tier != "quick":
+        # the reference mode inside C17's stated domain: every site of a 50-base ancestor at k = 15 (960 scenarios)
+        replay_ref(run, tier, seed, cfg="MC_LoRef_k15", declarative=True, tag="c17-ref15")
     events = lodrv.snp_events(run, tier, seed + 17, "c17")
     # scenarios where only the ancestor satisfies the uniqueness precondition are skipped by the trace
     # specification; classify them here (known finding K17 when the columns are wrong)
@@ -178,13 +181,13 @@ def replay_entries(run, tier, seed, module="MC_LoGraph", tag="c17-graph", nq=400
         run.sample({"replayed_behaviour": {k_: behs[0][k_] for k_ in ("k", "samples", "entries", "columns") if k_ in behs[0]}})
 
 
-def replay_ref(run, tier, seed):
+def replay_ref(run, tier, seed, cfg=None, declarative=False, tag="c17-ref"):
     """Conformance of LoCall!LoCallRef (`ska lo -r`) on MC_LoRef's scenarios (k = 7; design theorem: a placed site is at its
     true coordinate with the true alleles and the pseudo-genomes are the reference with each sample's allele): SNP alignment,
     VCF records and pseudo-genomes of the real run are compared with the model's. Reference mode below k = 15 is outside C17's
     stated domain: differences are MODEL DRIFT, not violations (the declarative verdicts for -r come from the lo.snps events)."""
     import random, concurrent.futures, skacli
-    d = vlib.design_check("MC_LoRef", "MC_LoRef_quick" if tier == "quick" else "MC_LoRef", "c17-ref", workers=12,
+    d = vlib.design_check("MC_LoRef", cfg or ("MC_LoRef_quick" if tier == "quick" else "MC_LoRef"), tag, workers=12,
                           timeout=3000, want_replay=True)
     run.add_design(d)
     behs = d["replay"]
@@ -205,6 +208,26 @@ def replay_ref(run, tier, seed):
             open(ref, "w").write(">anc\n%s\n" % bytes(beh["ref"]).decode())
             out = os.path.join(sub.dir, "out")
             rc, so, se = vlib.ska_cli(["lo", sub.path("g"), out, "-r", ref])
+            if declarative and beh["pre"]:
+                # C17 with a reference, inside its stated domain (k >= 15): the site is reported at its true coordinate with
+                # the true alleles, the SNP alignment is that one column, the pseudo-genomes carry each sample's allele there
+                why = None
+                if rc != 0:
+                    why = "ska lo -r failed: " + se.decode(errors="replace")[-100:]
+                else:
+                    nm_, sq_ = vlib.parse_fasta_text(open(out + "_snps.fas").read())
+                    cols_ = ["".join(x[j] for x in sq_) for j in range(len(sq_[0]) if sq_ else 0)]
+                    truecol = "".join(chr(x) for x in beh["truecol"])
+                    recs_ = [l.rstrip("\n").split("\t") for l in open(out + "_snps.vcf") if not l.startswith("#")]
+                    pn_, ps_ = vlib.parse_fasta_text(open(out + "_pseudo_genomes.fas").read())
+                    if cols_ != [truecol]:
+                        why = "SNP alignment %s is not the true column %s" % (cols_, truecol)
+                    elif len(recs_) != 1 or int(recs_[0][1]) != beh["truepos"] + 1 or recs_[0][3] != chr(beh["trueref"]):
+                        why = "VCF record %s is not at the true coordinate %d with REF %s" % (recs_, beh["truepos"] + 1, chr(beh["trueref"]))
+                    elif any(ps_[i][beh["truepos"]] != truecol[i] for i in range(len(ps_))):
+                        why = "pseudo-genomes do not carry the samples' alleles at the site"
+                if why:
+                    return {"decl": why}
             if beh["panic"]:
                 return [] if rc != 0 else ["model predicts an out-of-range index, the run succeeded"]
             if rc != 0:
@@ -235,6 +258,9 @@ def replay_ref(run, tier, seed):
     run.replayed += len(behs)
     ndrift = 0
     for beh, v in zip(behs, res):
+        if isinstance(v, dict):
+            run.fail({"kind": "replay", "behaviour": beh, "verdict": v}, "ska lo -r on a TLC scenario (k=%d): %s" % (beh["k"], v["decl"]))
+            continue
         if v:
             ndrift += 1
             if ndrift <= 3:
